@@ -148,9 +148,9 @@ func main() {
 		wdir, _ = os.MkdirTemp("", "govc-")
 		defer os.RemoveAll(wdir)
 	}
-	cfg := &SolverCfg{Dir: wdir, FirstMS: 10000, RaceMS: 10000, Workers: 16, Seed: seed}
+	cfg := &SolverCfg{Dir: wdir, FirstMS: 10000, RaceMS: 10000, CoverMS: 4000, Workers: 16, Seed: seed}
 	if *tier == "thorough" {
-		cfg.FirstMS, cfg.RaceMS, cfg.Second = 20000, 60000, true
+		cfg.FirstMS, cfg.RaceMS, cfg.Second, cfg.CoverMS = 20000, 60000, true, 15000
 	}
 	e.dischargeAll(obls, cfg)
 	tSolve := time.Since(t0) - tLoad - tGen
